@@ -12,9 +12,8 @@ for line in open(os.path.join(V, "MANIFEST.hooks")):
 checks, na, served = [], [], []
 for pid in props:
     path = os.path.join(V, "checks", pid + ".py")
-    tracked = subprocess.run(["git", "-C", V, "ls-files", "--error-unmatch", "checks/%s.py" % pid],
-                             capture_output=True).returncode == 0
-    if not os.path.exists(path) or not (tracked or os.environ.get("MANIFEST_ALL")):
+    ready = pid in open(os.path.join(V, "checks", "READY")).read().split()
+    if not os.path.exists(path) or not (ready or os.environ.get("MANIFEST_ALL")):
         na.append({"property_id": pid, "reason": "no check registered yet in this round: the Lean model, theorems and code tie for this property are still under construction (DESIGN.md §5 describes the plan); it is not claimed rather than claimed with a weaker technique"})
         continue
     spec = importlib.util.spec_from_file_location("c", path); mod = importlib.util.module_from_spec(spec); spec.loader.exec_module(mod)
